@@ -4,12 +4,17 @@
   In the model an engine is a value (`Engine`: fact store + definition table) and every operation
   is a function of that value, so operations on one engine cannot depend on another by
   construction. What has to be established about the *code* is that it has no state outside the
-  instance; that is the translator-fed obligation below. Nested interleavings are covered by the
-  push-style semantics (a query of one engine inside a yield of another); zig-zag stepping of
-  simultaneously suspended generators and threads are not expressible in this model and are only
-  sampled by the correspondence check (partial, see DESIGN.md).
+  instance; that is the translator-fed obligation below.
+
+  Within one instance: while a query is suspended at an answer the other suspended generators move
+  (they allocate cells, bind and unbind cells of their own). In the push-style model that is a
+  consumer which, after recording the answer, changes the world outside the query's cells; the
+  theorems at the end say that the query's answers are those it gives when run alone, for every
+  such consumer. Threads (true preemption inside a step) are not expressible in this model and are
+  only sampled by the correspondence check (partial, see DESIGN.md).
 -/
 import Yld.Model.Api
+import Yld.Proofs.Interleave
 namespace Yld.C04
 
 /-- engine.py has no module-level mutable binding, no mutable class attribute, no mutable default
@@ -46,5 +51,44 @@ theorem clear_local (e : Engine) : e.clear.w.b = e.w.b ∧ e.clear.w.db = [] ∧
   ⟨rfl, rfl, rfl⟩
 
 example : (({ a := {}, b := {} } : Two).onA Engine.clear).b.defs = builtinDefs := rfl
+
+/-! ### Within one engine: simultaneously suspended queries over disjoint variables -/
+
+/-- **A suspended query is not disturbed by what the others do meanwhile.** Two runs of the same
+    query: alone (`k1`, world `w1`), and in a world `w2` that is `w1` seen through a renaming `ρ` of
+    cells plus foreign cells `F`, with any consumer `k2` that simulates `k1` up to the environment —
+    in particular one that, at every answer, allocates cells and rebinds any cell that is not the
+    image of a cell of the query. The outcomes are related: same signal, result worlds again related
+    (same store, same recorded answers, own cells bound alike). Every fuel, every mix of
+    definition modes, every builtin (findall, assert, retract included). -/
+theorem suspended_query_is_independent_of_its_environment (cfg : Cfg) (hdefs : DefsRowsClosed cfg.defs) (F : Nat → Prop)
+    (f : Nat) (name : String) (args : List Term) (d : Nat) (ρ : Nat → Nat) (w1 w2 : World) (k1 k2 : K)
+    (h : IlEnv F ρ d w1 w2) (ha : OwnL w1.next args) (hk : IlK F ρ w1.next d k1 k2) :
+    IlRes F ρ w1.next d (query cfg f name args k1 w1) (query cfg f name (args.map (Term.rename ρ)) k2 w2) :=
+  query_env cfg hdefs F f name args d ρ w1 w2 k1 k2 h ha hk
+
+/-- **Interleaved queries produce the answers they produce alone.** From any well-formed engine
+    state, with the other generators owning `m` cells of arbitrary contents and, after each answer
+    of our query, allocating `I.alloc i` more cells and rebinding their cells at will: same answers
+    in the same order with the same multiplicity, same ending, same fact store, and our cells
+    bound afterwards as before. -/
+theorem interleaved_queries_do_not_interfere (e : Engine) (hwf : e.WF) (mode : Mode) (f : Nat) (name : String) (args : List Term)
+    (hargs : ArgsScoped e args) (sched : Sched) (m : Nat) (b0 : Nat → Option Term) (I : Interference) :
+    let cfg : Cfg := { blacklist := e.blacklist, defs := e.defs, mode := mode }
+    let lo := e.w.next
+    let w1 : World := { e.w with acc := [] :: e.w.acc, cyc := false }
+    let w2 : World := { w1 with next := lo + m, b := fun x => if lo ≤ x ∧ x < lo + m then b0 x else e.w.b x }
+    let r1 := query cfg f name args (topConsumer f args sched) w1
+    let r2 := query cfg f name args (interleavedConsumer f args sched lo m I) w2
+    r2.2 = r1.2 ∧ r2.1.acc = r1.1.acc ∧ r2.1.db = r1.1.db ∧ r2.1.stamp = r1.1.stamp ∧ r2.1.cyc = r1.1.cyc ∧
+      (∀ x, x < lo → r2.1.b x = e.w.b x) :=
+  interleaved_query_answers e hwf mode f name args hargs sched m b0 I
+
+/-- The hypotheses are satisfiable and the interference is not trivial: the default engine with a
+    program that uses findall, three foreign cells bound to variables, and others that allocate
+    `i+1` cells after the `i`-th answer and bind every cell of theirs to a structure. -/
+example :=
+  interleaved_queries_do_not_interfere ilDemoEngine ilDemoEngine_wf .compiled 50 "q" [.var 0, .var 1] ilDemo_args .all 3
+    (fun x => some (.var (x + 7))) ilDemoI
 
 end Yld.C04
